@@ -171,7 +171,7 @@ func init() {
 	profs := []gen.Profile{gen.PDefault, gen.PTiny, gen.PDeep, gen.PNulls, gen.PHostile, numKeys}
 	p.Strata = append(p.Strata, mon.Stratum{
 		Name: "patch/random-pairs",
-		N:    qt(40000, 1000000),
+		N:    qt(40000, 6000000),
 		Run: func(c *mon.Ctx, i int) {
 			prof := profs[i%len(profs)]
 			if i%len(profs) == 5 {
@@ -198,7 +198,7 @@ func init() {
 	}
 	p.Strata = append(p.Strata, mon.Stratum{
 		Name: "merge/random-pairs",
-		N:    qt(30000, 800000),
+		N:    qt(30000, 4800000),
 		Run: func(c *mon.Ctx, i int) {
 			prof := mergeProfiles[i%len(mergeProfiles)]
 			a, b := gen.Pair(c.R, prof)
